@@ -31,6 +31,8 @@ _FAILFAST = os.environ.get("DFMC_FAILFAST") == "1" and os.path.realpath(REPO) !=
 
 def _load_check(pid):
     pats = glob.glob(os.path.join(VERIF, "checks", pid.lower() + "_*.py"))
+    if pid.startswith("T"):  # toy checks of the self test
+        pats = glob.glob(os.path.join(VERIF, "mc", "toychecks", pid.lower() + "_*.py"))
     if len(pats) != 1:
         raise SystemExit(f"no unique check module for {pid}: {pats}")
     spec = importlib.util.spec_from_file_location("checks_" + pid.lower(), pats[0])
@@ -110,7 +112,7 @@ def run_check(pid, tier, seed, workers, only_unit=None, dump_instances=False, ti
             res.errors.append(f"HARNESS-NONDETERMINISM {e}")
         if roots:
             if workers > 1 and len(roots) > 1:
-                with ctxmp.Pool(workers) as pool:
+                with ctxmp.Pool(workers, maxtasksperchild=1) as pool:  # every task starts on a fresh fork of the parent
                     max_exec = 150
                     while roots:
                         tasks = [(name, r, bound, time_budget, max_exec) for r in roots]
@@ -189,11 +191,31 @@ def run_check(pid, tier, seed, workers, only_unit=None, dump_instances=False, ti
             again = any(x.sig == sig for x in ctx2.violations)
         except Exception as e:  # noqa
             again = False
-        if not again:
-            out_lines.append(f"HARNESS-NONDETERMINISM property={pid} sig={sig} did not reproduce on re-run")
-            exit_code = max(exit_code, 2)
-            continue
         path = os.path.join("replays", f"{pid}-{engine.hhex(sig)[:10]}.json")
+        if not again:
+            # Not reproducible in isolation.  Either the harness is nondeterministic (a harness error), or the LIBRARY
+            # carries hidden state between calls (a cache, a shared default, a reused buffer) and the outcome depends
+            # on the executions that ran before in the same worker task.  Replay that recorded history in a fresh
+            # interpreter; if the violation reproduces there it is a deterministic, history-dependent violation.
+            cands = sorted((x for x in vs if x.history), key=lambda x: len(x.history))
+            seqd = None
+            for vh in cands[:3]:
+                seqd = _confirm_history(pid, tier, seed, vh, path)
+                if seqd is not None:
+                    v = vh
+                    break
+            if seqd is None:
+                out_lines.append(f"HARNESS-NONDETERMINISM property={pid} sig={sig} did not reproduce on re-run")
+                exit_code = max(exit_code, 2)
+                continue
+            out_lines.append(f"VIOLATION property={pid} replay={path}")
+            out_lines.append(f"  sig={sig} instances={len(vs)} first: {v.msg}")
+            out_lines.append(f"  HISTORY-DEPENDENT: passes in isolation, fails after {len(seqd) - 1} earlier execution(s) in the same "
+                             f"process (hidden state in the library); replay file holds the minimised sequence")
+            out_lines.append(f"  choices: {'; '.join(f'{n}={val}' for n, _, val in v.choices)}")
+            nviol += 1
+            exit_code = 1 if exit_code == 0 else exit_code
+            continue
         with open(os.path.join(VERIF, path), "w") as f:
             json.dump({"property": pid, "tier": tier, "seed": seed, "unit": v.unit, "sig": sig,
                        "prefix": prefix, "choices": [list(c) for c in v.choices],
@@ -247,7 +269,7 @@ def run_check(pid, tier, seed, workers, only_unit=None, dump_instances=False, ti
         "wall_s": round(time.time() - t0, 2),
         "violations": nviol,
     }
-    evdir = (os.path.join(VERIF, "evidence") if os.path.realpath(REPO) == "/repo" and not only_unit
+    evdir = (os.path.join(VERIF, "evidence") if os.path.realpath(REPO) == "/repo" and not only_unit and not pid.startswith("T")
              else os.path.join(VERIF, ".scratch", "evidence"))  # partial (--unit) and scratch-repo runs are not evidence
     os.makedirs(evdir, exist_ok=True)  # runs against a scratch copy never touch the committed evidence
     evp = os.path.join(evdir, f"{pid}.json")
@@ -275,6 +297,90 @@ def run_check(pid, tier, seed, workers, only_unit=None, dump_instances=False, ti
     return exit_code
 
 
+def _confirm_history(pid, tier, seed, v, path):
+    """Replay v.history + v in a FRESH interpreter (minimising the history there).  Returns the minimised sequence
+    (list of choice prefixes, the failing execution last) if the violation reproduces, else None."""
+    full = os.path.join(VERIF, path)
+    prefix = [c[1] for c in v.choices]
+    with open(full, "w") as f:
+        json.dump({"property": pid, "tier": tier, "seed": seed, "unit": v.unit, "sig": v.sig, "prefix": prefix,
+                   "choices": [list(c) for c in v.choices], "msg": v.msg, "detail": v.detail, "instance": v.instance,
+                   "sequence": [list(h) for h in v.history] + [prefix]}, f)
+    try:
+        p = subprocess.run([sys.executable, "-W", "ignore", os.path.abspath(__file__), pid, "--minimise-seq", full],
+                           capture_output=True, text=True, timeout=1500)
+    except subprocess.TimeoutExpired:
+        return None
+    if p.returncode != 1:
+        return None
+    return json.load(open(full)).get("sequence")
+
+
+def _unit_fn(mod, tier, unit):
+    for u in mod.units(tier):
+        if u["name"] == unit:
+            return u["fn"]
+    return None
+
+
+def minimise_seq(pid, path):
+    """(internal) fresh process: does the recorded sequence reproduce the violation?  If so shrink it (each candidate
+    sequence runs in a forked child, i.e. on pristine library state) and rewrite the replay file.  Exit 1 = reproduces."""
+    d = json.load(open(path))
+    global _TIER, _SEED
+    _TIER, _SEED = d["tier"], d["seed"]
+    _lib_import()
+    fn = _unit_fn(_load_check(pid), d["tier"], d["unit"])
+    if fn is None:
+        return 2
+    seq = [tuple(x) for x in d["sequence"]]
+    sig = d["sig"]
+
+    def fails(cand):
+        sys.stdout.flush()
+        child = os.fork()
+        if child == 0:
+            rc = 3
+            try:
+                for pre in cand[:-1]:
+                    engine.run_once(d["unit"], fn, pre, d["tier"], d["seed"])
+                ctx = engine.run_once(d["unit"], fn, cand[-1], d["tier"], d["seed"], replaying=True)
+                rc = 1 if any(x.sig == sig for x in ctx.violations) else 0
+            except BaseException:
+                rc = 3
+            os._exit(rc)
+        _, st = os.waitpid(child, 0)
+        return os.WIFEXITED(st) and os.WEXITSTATUS(st) == 1
+
+    if not fails(seq):
+        return 0
+    best = seq
+    if fails(seq[-1:]):
+        best = seq[-1:]
+    else:
+        found = False
+        for h in list(reversed(seq[:-1]))[:800]:
+            if fails([h, seq[-1]]):
+                best, found = [h, seq[-1]], True
+                break
+        if not found:  # shrink to a short failing suffix by halving
+            lo = 0
+            while len(best) - 1 - lo > 1:
+                mid = lo + (len(best) - 1 - lo) // 2
+                if fails(best[mid:]):
+                    lo = mid
+                else:
+                    break
+            best = best[lo:]
+            if not fails(best):
+                best = seq
+    d["sequence"] = [list(x) for x in best]
+    d["history_dependent"] = True
+    with open(path, "w") as f:
+        json.dump(d, f, indent=1)
+    return 1
+
+
 def replay(pid, path):
     if not os.path.isabs(path):
         path = os.path.join(VERIF, path)
@@ -290,6 +396,8 @@ def replay(pid, path):
     if fn is None:
         print(f"HARNESS-ERROR unit {d['unit']} no longer exists")
         return 2
+    for pre in d.get("sequence", [])[:-1]:  # history-dependent violation: the earlier executions of the sequence first
+        engine.run_once(d["unit"], fn, pre, d["tier"], d["seed"])
     ctx = engine.run_once(d["unit"], fn, d["prefix"], d["tier"], d["seed"], replaying=True)
     got = [list(c) for c in ctx.record]
     if got[: len(d["choices"])] != d["choices"]:
@@ -316,6 +424,7 @@ def main(argv=None):
     ap.add_argument("--unit")
     ap.add_argument("--dump-instances", action="store_true")
     ap.add_argument("--selftest", action="store_true")
+    ap.add_argument("--minimise-seq", help=argparse.SUPPRESS)
     ap.add_argument("--budget", type=float, default=None, help="per-subtree time cap (reported as cap)")
     a = ap.parse_args(argv)
     if a.selftest:
@@ -326,6 +435,8 @@ def main(argv=None):
         ap.error("property id required")
     pid = a.property.upper()
     seed = int(os.environ.get("VERIF_SEED", "0") or 0)
+    if a.minimise_seq:
+        return minimise_seq(pid, a.minimise_seq)
     if a.replay:
         return replay(pid, a.replay)
     return run_check(pid, a.tier, seed, a.workers, a.unit, a.dump_instances, a.budget)
